@@ -76,3 +76,4 @@
 (declare-fun rtLen (Int) Int)                     ; reflect.Type.Len
 (declare-fun rtElem (Int) Int)                    ; reflect.Type.Elem
 (declare-fun rtKey (Int) Int)                     ; reflect.Type.Key
+(declare-fun rvZeroX (Int) Int)                  ; interface content of reflect.Zero(t)
